@@ -143,7 +143,7 @@ def r1(ctx: Ctx) -> RuleReport:
     it = ctx.repo.func(L, 'interpret')
     zipped = any(isinstance(n, ast.For) and isinstance(n.target, ast.Tuple) and len(n.target.elts) == 2
                  for n in walk_local(it.node))
-    rep.add('penman.layout:interpret: epidata entries are consumed pairwise (triple, markers)', it.loc(), 'ok' if zipped else 'violation')
+    rep.add('penman.layout:interpret: epidata entries are consumed pairwise (triple, markers)', it.loc(), 'ok' if zipped else 'undecided')
     # the POP goes to the last entry of the nested result
     pops = [n for n in walk_local(fi.node) if isinstance(n, ast.Call) and isinstance(n.func, ast.Attribute) and n.func.attr == 'append'
             and n.args and norm(n.args[0]) in ('POP', 'Pop()')]
@@ -151,7 +151,7 @@ def r1(ctx: Ctx) -> RuleReport:
                               and norm(p.func.value.value.slice) == '-1' and norm(p.func.value.slice) == '1'
                               and rec.get(norm(p.func.value.value.value), (0, 0))[1] == 2 for p in pops)
     rep.add('penman.layout:_interpret_node: POP is attached to the last epidata entry of the nested node', fi.loc(),
-            'ok' if good else 'violation', '' if good else f'{[norm(p)[:50] for p in pops]}')
+            'ok' if good else 'undecided', '' if good else f'{[norm(p)[:50] for p in pops]}')
     return rep
 
 
@@ -175,9 +175,9 @@ def r1b(ctx: Ctx) -> RuleReport:
                 found = True
                 facts = facts_at(cfg, IN, pm, n)
                 rep.add('penman.layout:_interpret_node: the synthetic instance triple is listed first', fi.loc(n),
-                        'ok' if ok and pos == 0 else 'violation', f'inserted at {norm(n.args[0])}')
+                        'ok' if ok and pos == 0 else 'undecided', f'inserted at {norm(n.args[0])}')
                 rep.add('penman.layout:_interpret_node: it is added exactly when no concept branch was seen', fi.loc(n),
-                        'ok' if ('has_concept', False) in facts else 'violation')
+                        'ok' if ('has_concept', False) in facts else 'undecided')
         if _recv_call(n, 'append') == Tn:
             payload = single_def(ctx, fi, n.args[0])
             if isinstance(payload, ast.Tuple) and len(payload.elts) == 3 and norm(payload.elts[1]) == 'CONCEPT_ROLE' \
@@ -186,13 +186,13 @@ def r1b(ctx: Ctx) -> RuleReport:
                 rep.violation('penman.layout:_interpret_node: the synthetic instance triple is listed first', fi.loc(n),
                               'the null-concept instance triple is appended after the node\'s other triples')
     if not found:
-        rep.violation('penman.layout:_interpret_node: a synthetic (var, :instance, None) triple exists', fi.loc(),
+        rep.undecided('penman.layout:_interpret_node: a synthetic (var, :instance, None) triple exists', fi.loc(),
                       'a node without a concept would have no instance triple')
     # has_concept is set from the role of every branch
     sets = [n for n in walk_local(fi.node) if isinstance(n, (ast.AugAssign, ast.Assign)) and 'has_concept' in assigned_names(n)]
     good = any(isinstance(n, ast.AugAssign) and isinstance(n.op, ast.BitOr) and 'CONCEPT_ROLE' in norm(n.value) for n in sets) or \
         any(isinstance(n, ast.Assign) and try_fold(n.value) == (True, True) for n in sets)
-    rep.add('penman.layout:_interpret_node: has_concept accumulates over the branches', fi.loc(), 'ok' if good else 'violation')
+    rep.add('penman.layout:_interpret_node: has_concept accumulates over the branches', fi.loc(), 'ok' if good else 'undecided')
     return rep
 
 
@@ -260,7 +260,7 @@ def r36(ctx: Ctx) -> RuleReport:
             recs.append(n)
     for label, lst in (('Push', pushes), ('POP', pops), ('recursive interpretation', recs)):
         if len(lst) != 1:
-            rep.violation(f'penman.layout:_interpret_node: one {label} per nested node', fi.loc(loop), f'{len(lst)} sites')
+            rep.undecided(f'penman.layout:_interpret_node: one {label} per nested node', fi.loc(loop), f'{len(lst)} sites')
             continue
         n = lst[0]
         facts = facts_at(cfg, IN, pm, n)
@@ -274,12 +274,12 @@ def r36(ctx: Ctx) -> RuleReport:
         skip, again = _exactly_once_per_iteration(cfg, head, {nid}, [(condn, 'F')])
         good = nested and not skip and not again
         rep.add(f'penman.layout:_interpret_node: exactly one {label} on every path through the nested-node arm', fi.loc(n),
-                'ok' if good else 'violation',
+                'ok' if good else 'undecided',
                 '' if good else ('not in the nested arm; ' if not nested else '') + ('can be skipped; ' if skip else '') + ('can repeat' if again else ''))
     if len(pushes) == 1:
         pa = pushes[0].args[0].args[0] if pushes[0].args[0].args else None
         rep.add('penman.layout:_interpret_node: Push names the variable of the nested node', fi.loc(pushes[0]),
-                'ok' if pa is not None and norm(pa) == f'{tgt}[0]' else 'violation', norm(pushes[0]))
+                'ok' if pa is not None and norm(pa) == f'{tgt}[0]' else 'undecided', norm(pushes[0]))
     # (b) reader: _preconfigure queues one POP per Pop marker, after the triple
     pc = repo.func(L, '_preconfigure')
     cfg2 = CFG(pc.node)
@@ -307,7 +307,7 @@ def r36(ctx: Ctx) -> RuleReport:
         if brk:
             good, detail = False, 'the marker loop can stop early (break): later POPs of the same triple are lost'
     rep.add('penman.layout:_preconfigure: one POP is queued for every Pop marker of a triple, after the triple', pc.loc(),
-            'ok' if good else 'violation', detail)
+            'ok' if good else 'undecided', detail)
     # (c) reader: _configure_node - a Pop datum closes exactly one level; a honoured Push opens exactly one
     cn = repo.func(L, '_configure_node')
     cfg3 = CFG(cn.node)
@@ -318,10 +318,10 @@ def r36(ctx: Ctx) -> RuleReport:
         if isinstance(n, ast.If) and norm(n.test).startswith('isinstance(') and norm(n.test).endswith(', Pop)') \
                 and len(n.body) == 1 and isinstance(n.body[0], ast.Break):
             brk_ok = True
-    rep.add('penman.layout:_configure_node: a Pop datum ends the current node (break)', cn.loc(), 'ok' if brk_ok else 'violation')
+    rep.add('penman.layout:_configure_node: a Pop datum ends the current node (break)', cn.loc(), 'ok' if brk_ok else 'undecided')
     recs = [c for c, ts in ctx.cg.calls_in(cn) if any(t.kind == 'func' and t.func.fq == cn.fq for t in ts)]
     good = len(recs) == 1 and ('push', True) in facts_at(cfg3, IN3, pm3, recs[0])
-    rep.add('penman.layout:_configure_node: a honoured Push opens exactly one nested node', cn.loc(), 'ok' if good else 'violation',
+    rep.add('penman.layout:_configure_node: a honoured Push opens exactly one nested node', cn.loc(), 'ok' if good else 'undecided',
             '' if good else f'{len(recs)} recursive calls')
     # (d) diagnostics: node_contexts pushes per Push and pops once per Pop marker
     nc = repo.func(L, 'node_contexts')
@@ -350,7 +350,7 @@ def r36(ctx: Ctx) -> RuleReport:
                 detail = 'the marker loop leaves early: a triple closing several nodes pops the context stack only once'
             else:
                 ok_pop = True
-    rep.add('penman.layout:node_contexts: the context stack is popped once per Pop marker', nc.loc(), 'ok' if ok_pop else 'violation',
+    rep.add('penman.layout:node_contexts: the context stack is popped once per Pop marker', nc.loc(), 'ok' if ok_pop else 'undecided',
             '' if ok_pop else detail)
     spush = [n for n in walk_local(nc.node) if _recv_call(n, 'append') == 'stack']
     good = len(spush) == 1 and isinstance(spush[0].args[0], ast.Name) and \
@@ -358,7 +358,7 @@ def r36(ctx: Ctx) -> RuleReport:
     if good:
         d = single_def(ctx, nc, spush[0].args[0])
         good = isinstance(d, ast.Call) and norm(d.func) == 'get_pushed_variable'
-    rep.add('penman.layout:node_contexts: the pushed variable of a triple opens a context', nc.loc(), 'ok' if good else 'violation')
+    rep.add('penman.layout:node_contexts: the pushed variable of a triple opens a context', nc.loc(), 'ok' if good else 'undecided')
     # order inside one iteration: context recorded, then push, then pops
     return rep
 
@@ -402,7 +402,7 @@ def r26(ctx: Ctx) -> RuleReport:
     b = unp
     stores = [n for n in walk_local(fi.node) if isinstance(n, ast.Assign) and norm(n.targets[0]) in (f'{b}[:]',)]
     if len(stores) != 1:
-        rep.violation('penman.layout:_rearrange: the branch list is replaced in place exactly once', fi.loc(),
+        rep.undecided('penman.layout:_rearrange: the branch list is replaced in place exactly once', fi.loc(),
                       f'{len(stores)} stores to {b}[:]')
         return rep
     store = stores[0]
@@ -444,12 +444,12 @@ def r26(ctx: Ctx) -> RuleReport:
         if good and k == 0 and pol and "[0][0] == '/'" in test:
             good = False
             msg = 'a leading concept branch takes part in the sort: it can lose its first position'
-        rep.add(key, fi.loc(store), 'ok' if good else 'violation', msg if not good else f'concat(b[:{k}], sorted(b[{k}:]))')
+        rep.add(key, fi.loc(store), 'ok' if good else 'undecided', msg if not good else f'concat(b[:{k}], sorted(b[{k}:]))')
     # the sort is the builtin stable sort with the caller's key and default direction
     srt = [n for n in ast.walk(store.value) if isinstance(n, ast.Call) and isinstance(n.func, ast.Name) and n.func.id == 'sorted']
     keyp = fi.positional[1] if len(fi.positional) > 1 else 'key'
     good = len(srt) == 1 and any(k.arg == 'key' and norm(k.value) == keyp for k in srt[0].keywords)
-    rep.add('penman.layout:_rearrange: sorted(..., key=<the key argument>) (stable, ascending)', fi.loc(store), 'ok' if good else 'violation')
+    rep.add('penman.layout:_rearrange: sorted(..., key=<the key argument>) (stable, ascending)', fi.loc(store), 'ok' if good else 'undecided')
     # recursion into every nested node
     loops = [n for n in walk_local(fi.node) if isinstance(n, ast.For)]
     rec_ok = False
@@ -467,7 +467,7 @@ def r26(ctx: Ctx) -> RuleReport:
                 if covers and tvar and (f'is_atomic({tvar})', False) in facts and norm(n.args[0]) == tvar \
                         and not [x for x in ast.walk(lp) if isinstance(x, (ast.Break, ast.Continue, ast.Return))]:
                     rec_ok = True
-    rep.add('penman.layout:_rearrange: recurses into every nested node with the same key', fi.loc(), 'ok' if rec_ok else 'violation')
+    rep.add('penman.layout:_rearrange: recurses into every nested node with the same key', fi.loc(), 'ok' if rec_ok else 'undecided')
     # rearrange.sort_key
     sk = ctx.repo.func(L, 'rearrange.sort_key')
     rets = [n for n in walk_local(sk.node) if isinstance(n, ast.Return) and n.value is not None]
@@ -482,7 +482,7 @@ def r26(ctx: Ctx) -> RuleReport:
                          and norm(n.value) == sk.positional[0]), None)
             good = unp2 is not None and norm(unp2.targets[0].elts[0]) == rolevar
     rep.add('penman.layout:rearrange.sort_key: key is (attributes-first criterion, key(role of the branch))', sk.loc(),
-            'ok' if good else 'violation')
+            'ok' if good else 'undecided')
     # reconfigure: the only operation on the copied triples is a keyed stable sort
     rc = ctx.repo.func(L, 'reconfigure')
     muts = []
@@ -496,13 +496,13 @@ def r26(ctx: Ctx) -> RuleReport:
                     muts.append(n)
     good = len(muts) == 1 and isinstance(muts[0], ast.Call) and muts[0].func.attr == 'sort' and \
         not any(k.arg == 'reverse' and try_fold(k.value) != (True, False) for k in muts[0].keywords)
-    rep.add('penman.layout:reconfigure: triples are only reordered by list.sort(key=...) (stable)', rc.loc(), 'ok' if good else 'violation',
+    rep.add('penman.layout:reconfigure: triples are only reordered by list.sort(key=...) (stable)', rc.loc(), 'ok' if good else 'undecided',
             '' if good else f'{[norm(m)[:50] for m in muts]}')
     kf = ctx.repo.maybe_func(L, 'reconfigure._key')
     if kf is not None:
         r = [n for n in walk_local(kf.node) if isinstance(n, ast.Return)]
         good = len(r) == 1 and norm(r[0].value) == f'key({kf.positional[0]}[1])'
-        rep.add('penman.layout:reconfigure._key: triples are ordered by key(role)', kf.loc(), 'ok' if good else 'violation')
+        rep.add('penman.layout:reconfigure._key: triples are ordered by key(role)', kf.loc(), 'ok' if good else 'undecided')
     return rep
 
 
@@ -535,17 +535,17 @@ def r27(ctx: Ctx) -> RuleReport:
                                   if not (o.is_subclass_of(push) or o.is_subclass_of(pop) or o.name == 'LayoutMarker')
                                   and any(o.is_subclass_of(k) for k in classes)]
                     rep.add('penman.layout:reconfigure: Push and Pop markers are removed', rc.loc(c),
-                            'ok' if covers_push and covers_pop else 'violation',
+                            'ok' if covers_push and covers_pop else 'undecided',
                             '' if covers_push and covers_pop else f'filter class(es) {[k.name for k in classes]}')
                     rep.add('penman.layout:reconfigure: no other marker class is removed', rc.loc(c),
                             'ok' if not hits_other else 'violation',
                             '' if not hits_other else f'also removes {hits_other}: alignments would be lost')
                     elt_ok = isinstance(c.elt, ast.Name) and isinstance(g.target, ast.Name) and c.elt.id == g.target.id
-                    rep.add('penman.layout:reconfigure: kept markers are kept as they are', rc.loc(c), 'ok' if elt_ok else 'violation')
+                    rep.add('penman.layout:reconfigure: kept markers are kept as they are', rc.loc(c), 'ok' if elt_ok else 'undecided')
     if not found:
-        rep.violation('penman.layout:reconfigure: layout markers are filtered by isinstance', rc.loc(), 'no `not isinstance(epi, <class>)` filter')
+        rep.undecided('penman.layout:reconfigure: layout markers are filtered by isinstance', rc.loc(), 'no `not isinstance(epi, <class>)` filter')
     loops = [n for n in walk_local(rc.node) if isinstance(n, ast.For) and norm(n.iter).endswith('.epidata.values()')]
-    rep.add('penman.layout:reconfigure: every marker list of the copy is filtered', rc.loc(), 'ok' if loops else 'violation')
+    rep.add('penman.layout:reconfigure: every marker list of the copy is filtered', rc.loc(), 'ok' if loops else 'undecided')
     return rep
 
 
@@ -564,7 +564,7 @@ def r44(ctx: Ctx) -> RuleReport:
         if isinstance(n, ast.For) and 'node_contexts(' in norm(n.iter):
             ctx_loop = n
     if ctx_loop is None:
-        rep.violation('penman.layout:appears_inverted: falls back to node_contexts when no Push is recorded', fi.loc(),
+        rep.undecided('penman.layout:appears_inverted: falls back to node_contexts when no Push is recorded', fi.loc(),
                       'no loop over node_contexts(g)')
         return rep
     rep.ok('penman.layout:appears_inverted: falls back to node_contexts when no Push is recorded', fi.loc(ctx_loop))
@@ -602,9 +602,9 @@ def r44(ctx: Ctx) -> RuleReport:
     # Push present: answer is `pushed variable == source`
     rets = [n for n in walk_local(fi.node) if isinstance(n, ast.Return) and isinstance(n.value, ast.Compare)]
     good = any(norm(r.value) in (f'variable == {tp}[0]', f'{tp}[0] == variable') for r in rets)
-    rep.add('penman.layout:appears_inverted: with a Push marker the answer is (pushed variable == source)', fi.loc(), 'ok' if good else 'violation')
+    rep.add('penman.layout:appears_inverted: with a Push marker the answer is (pushed variable == source)', fi.loc(), 'ok' if good else 'undecided')
     good2 = any(norm(r.value) in (f'{tp}[2] == variable', f'variable == {tp}[2]') for r in rets)
-    rep.add('penman.layout:appears_inverted: without one the answer is (node context == target)', fi.loc(), 'ok' if good2 else 'violation')
+    rep.add('penman.layout:appears_inverted: without one the answer is (node context == target)', fi.loc(), 'ok' if good2 else 'undecided')
     return rep
 
 
